@@ -3,7 +3,7 @@ CONFIG = {
     "driver": "c03_driver.ml",
     "model_module": "c03_model",
     "level": "proof",
-    "level_text": "Coq theorems without axioms about a model of header.Write / header.Read / the checksum: checksum_chunking (streaming checksum = block definition for every split of the data; zero padding irrelevant), write_wf (for every scaler type and every table map with 1 <= n < 4096 written tables and a file below 4 GiB: count and search fields = OpenType formulas, directory strictly sorted, tables 4-aligned, behind the directory, inside the file, consecutive, pairwise disjoint, length formula, zero padding, per-table checksums), write_directory (nil-valued / wrongly named entries are not counted; directory = tables given), whole_file_checksum (0xB1B0AFBA when head >= 12 bytes), read_write_roundtrip (header.Read accepts, ReadTableBytes returns every table byte for byte, head up to bytes 8..11), container_checker_sound (the boolean checker run on the bytes the implementation produced implies every clause, for any byte string). The model is tied to header/*.go by regenerated constants and expressions (table order, 0xB1B0AFBA, 280, search-field / offset expressions, coq/Gen/C03.v + Proofs_Tie.v) and by comparing implementation bytes with model bytes on generated table maps, header.Read with read_dir on written and mutated directories, and the checker with an independent Go walk.",
+    "level_text": "Coq theorems without axioms about a model of header.Write / header.Read / the checksum: checksum_chunking (streaming checksum = block definition for every split of the data; zero padding irrelevant), write_wf (for every scaler type and every table map with 1 <= n < 4096 written tables and a file below 4 GiB: count and search fields = OpenType formulas, directory strictly sorted, tables 4-aligned, behind the directory, inside the file, consecutive, pairwise disjoint, length formula, zero padding, per-table checksums), write_directory (nil-valued / wrongly named entries are not counted; directory = tables given), whole_file_checksum (0xB1B0AFBA when head >= 12 bytes), read_write_roundtrip (header.Read accepts, ReadTableBytes returns every table byte for byte, head up to bytes 8..11), container_checker_sound (the boolean checker run on the bytes the implementation produced implies every clause, for any byte string), write_order_independent (the bytes do not depend on the order in which the map's entries are listed), model_matches_source_expressions (the model's search-field / offset arithmetic equals the expressions regenerated from header/write.go). The model is tied to header/*.go by regenerated constants and expressions (table order, 0xB1B0AFBA, 280, search-field / offset expressions, coq/Gen/C03.v + Proofs_Tie.v) and by comparing implementation bytes with model bytes on generated table maps, header.Read with read_dir on written and mutated directories, and the checker with an independent Go walk.",
     "level_note": "Trusted: Coq kernel, extraction (ExtrOcamlBasic), translator, Go harness with its independent structural walk. The Go code is modelled (C03/Model.v), not verified. The comparison of complete fonts with golang.org/x/image/font/sfnt is differential testing supporting the search, not a theorem. header.Write with no table to write panics (1 << -1) and produces no file: outside the statement, modelled as Panic.",
     "trusted_base": [
         "modelled, not verified: header/write.go (Write, clearChecksum, patchChecksum), header/checksum.go (check.Write, Sum, checksum), header/tables.go (Read, ReadTableBytes via slice_table); model C03/Model.v mirrors the code as repaired by fixes/C03-nil-table-count.diff and fixes/C03-short-head-guard.diff",
